@@ -1376,7 +1376,7 @@ def fam_cli(rng, n, prefix):
         d["aalias"] = rng.choice(AALIASES[ac]) if d["acodec"] else None
         # start from a valid combination ...
         d["w"], d["h"] = rng.choice([(640, 480), (1920, 1080), (320, 240), (4096, 2160)])
-        d["fps"] = rng.choice(["30", "29.97", "120", "0.5"])
+        d["fps"] = rng.choice(["30", "29.97", "120", "0.5", "120.0", "1e-9", "59.94"])
         d["rate"] = rng.choice([48000, 44100, 192000, 8000])
         d["ch"] = rng.choice([2, 1, 8, 6])
         d["frag"] = False
@@ -1387,14 +1387,15 @@ def fam_cli(rng, n, prefix):
         d["verbose"] = rng.chance(1, 4)
         d["badout"] = False
         # ... and in half of the cases break exactly one thing
-        if rng.chance(1, 2):
+        broke = rng.chance(1, 2)
+        if broke:
             k = rng.below(9)
             if k == 0:
                 d["w"] = rng.choice([319, 4097, 0, None])
             elif k == 1:
                 d["h"] = rng.choice([239, 2161, 0, None])
             elif k == 2:
-                d["fps"] = rng.choice(["0", "121", "-1", None])
+                d["fps"] = rng.choice(["0", "121", "-1", None, "NaN", "nan", "NaN", "inf", "-inf", "1e400", "-0", "120.0000001"])
             elif k == 3:
                 d["rate"] = rng.choice([0, 192001, None])
             elif k == 4:
@@ -1407,9 +1408,11 @@ def fam_cli(rng, n, prefix):
                 d["video"] = ("missing", None)
             else:
                 d["acodec"], d["aalias"] = "none", "none"
-        else:
-            # keep the inputs valid too
-            if d["video"] is not None and d["video"][0] not in ("valid", "valid-ws", "valid-upper"):
+        if not broke or rng.chance(2, 3):
+            # keep the input files valid too (so that exactly one thing is wrong, or nothing)
+            if d["video"] is not None and d["video"][0] == "missing" and broke:
+                pass
+            elif d["video"] is not None and d["video"][0] not in ("valid", "valid-ws", "valid-upper"):
                 d["video"] = ("valid", video_key(rng, codec).hex().encode())
             if d["audio"] is not None and d["audio"][0] not in ("valid", "valid-ws", "valid-upper"):
                 ac2 = d["acodec"] or "aac-lc"
